@@ -510,7 +510,7 @@ func (ic *itemCtx) checkRange() bool {
 		if lo > hi {
 			lo, hi = rg.To, ic.dot
 		}
-		if rg.From == rg.To && strings.Trim(ic.content[lo:hi], " \t") == "" {
+		if rg.From == rg.To && strings.Trim(ic.content[lo:hi], " \t\r\n") == "" {
 			ic.c.Count("insertion_point_after_blanks", 1)
 			return true
 		}
@@ -1089,13 +1089,16 @@ func Spec() *mon.Spec {
 			{Name: "files", Quick: 3000, Thorough: 40000, Run: runFiles},
 			{Name: "names", Quick: 1500, Thorough: 20000, Run: runNames},
 			{Name: "generic", Quick: 3000, Thorough: 40000, Run: runGeneric},
+			{Name: "gaps", Quick: 1200, Thorough: 15000, Run: runGaps},
 		},
 		ChildSetup: childSetup,
 		Floors: map[string]int{"distinct_nontrivial": 7000, "candidates_checked": 30000, "candidates_redir": 5000, "candidates_command": 2000,
 			"hostile_candidates": 25000, "unprintable_candidates": 12000, "style_single": 8000, "style_double": 12000, "style_bare": 6000,
 			"unterminated_seeds": 2000, "compound_seeds": 2000, "continued_buffers": 4000,
 			"variable_candidates_declared": 1500, "variable_candidates_in_namespace": 200, "lhs_candidates_assigned": 2000,
-			"generic_candidates_checked": 25000, "generic_complex_candidates": 12000,
+			"gap_calls": 3500, "gap_line_break_between_cursor_and_word": 1100, "gap_line_break_between_cursor_and_word_command": 900,
+			"gap_file_candidates": 5000, "gap_variable_candidates": 2500, "gap_command_candidates": 100000, "gap_with_crlf": 1400, "gap_with_tab": 1000,
+			"gap_cursor_after_line_break": 1300, "generic_candidates_checked": 25000, "generic_complex_candidates": 12000,
 			"command_functions_called": 2000, "command_externals_checked": 2000, "index_candidates_checked": 1500},
 	}
 }
